@@ -119,6 +119,11 @@ def run(ctx):
     children_table(ctx, gx)
     children_once(ctx, gx)
     answer_caches_follow_exports(ctx, writers)
+    from .c09 import per_instance_registries
+    per_instance_registries(
+        ctx, 'C16.D1', ('objects',),
+        'objects exported on one connection are visible on, and removed '
+        'from, every other connection of the process')
     ctx.floor('C16.D1', 3)
     ctx.floor('C16.D2', 6)
     ctx.floor('C16.D3', 2)
@@ -232,6 +237,10 @@ def answer_caches_follow_exports(ctx, writers):
                 isinstance(tgt.value, ast.Name) and tgt.value.id == 'self' \
                 and tgt.attr != 'exports':
             caches.add(tgt.attr)
+    from ..loader import attr_read_elsewhere
+    # a cache is READ to produce an answer; a counter that is only
+    # incremented is not one
+    caches = {a for a in caches if attr_read_elsewhere(hm.node, a)}
     ctx.extra['answer_caches'] = sorted(caches)
     for attr in sorted(caches):
         for q in sorted(writers):
